@@ -393,6 +393,9 @@ func (ex *Exec) verifIntrinsic(st *PState, fn *ssa.Function, base string, args [
 	case "verifDump":
 		ex.note(fmt.Sprintf("dump %s = %v", constString(args[0]), args[1]))
 		return nil, true
+	case "verifDumpBig":
+		ex.note(fmt.Sprintf("dump %s = %v", constString(args[0]), ex.load(st, args[1])))
+		return nil, true
 	case "verifNote":
 		ex.note(constString(args[0]))
 		return nil, true
@@ -484,6 +487,26 @@ func (ex *Exec) verifIntrinsic(st *PState, fn *ssa.Function, base string, args [
 		// verifRealConst[T](n int) T: the integer n as an element of an abstracted (real) type
 		n := ex.constIntArg(args[0])
 		return ts.Real(big.NewRat(n, 1)), true
+	case "verifVec":
+		// verifVec[T](coefs ...int) T: module element with the given coefficients
+		sl := args[0].(*SliceV)
+		n := ex.constIntArg(sl.Len)
+		v := &VecV{}
+		for i := int64(0); i < n; i++ {
+			v.C = append(v.C, ex.sliceElem(st, sl, ts.Int64(i)).(*Term))
+		}
+		rt := fn.Signature.Results().At(0).Type()
+		if d := ex.vecDim(rt); d != len(v.C) {
+			fail("verifVec: type %s has dimension %d, got %d coefficients", rt, d, len(v.C))
+		}
+		return v, true
+	case "verifVecCoefBig":
+		// verifVecCoefBig[T](p *T, i int) *big.Int: coefficient i of a module element
+		vv := ex.ldV(st, args[0])
+		i := ex.constIntArg(args[1])
+		bt := fn.Signature.Results().At(0).Type().(*types.Pointer).Elem()
+		o := ex.alloc(st, "coef", bt, vv.C[i])
+		return &PtrV{Obj: o}, true
 	case "verifNonResidue":
 		// verifNonResidue[T]() T: the non-residue atom of an abstracted tower level T
 		rt := fn.Signature.Results().At(0).Type()
@@ -676,6 +699,9 @@ func (ex *Exec) ufValue(name string, t types.Type, args []*Term) Value {
 // rather than by inlining the callee's SSA.
 func (ex *Exec) isSummarised(fn *ssa.Function, full string) bool {
 	if _, ok := ex.recvAbstract(fn); ok {
+		return true
+	}
+	if fn.Signature.Recv() != nil && ex.vecDim(fn.Signature.Recv().Type()) > 0 {
 		return true
 	}
 	if fn.Pkg != nil {
